@@ -23,6 +23,11 @@ import bifgen
 import lib
 
 TOL = Fraction(1, 1000)
+POLAR_KEYWORDS = {"if", "elif", "else", "end", "while", "true", "false", "types"}
+SYMENGINE_CONSTANTS = {"e", "pi", "oo", "zoo", "nan", "inf"}
+# names treated as taken by the proposed fix proposed_fixes/c15_reserved_names.diff; a mapping that is a possible
+# outcome of get_unique_name with these pre-existing names is accepted as well (repaired code)
+RESERVED_FIX = ["if", "elif", "else", "end", "while", "true", "false", "types", "e", "pi", "oo", "zoo", "nan", "inf"]
 
 
 # ------------------------------------------------------------------ Coq term printers
@@ -121,8 +126,9 @@ def name_index(g, m):
     return idx
 
 
-def conv_assign(a, idx):
-    """dumped assignment -> (coq term, python tuple)"""
+def conv_assign(a, idx, flags=None):
+    """dumped assignment -> (coq term, python tuple); flags collects float residues of the implicit
+    last probability (Polar computes it as a float subtraction printed with 15 digits)"""
     if a.get("k") != "assign":
         raise Unrepresentable(f"statement {a}")
     if a["var"] not in idx:
@@ -142,6 +148,8 @@ def conv_assign(a, idx):
         if len(probs) != len(vals):
             raise Unrepresentable("lengths")
         head = probs[:-1]
+        if flags is not None and len(probs) >= 2 and probs[-1] != 1 - sum(head, Fraction(0)):
+            flags.append({"choice": a["probs"], "implicit_last_should_be": str(1 - sum(head, Fraction(0)))})
         return (f"ACat {x} {clist([str(v) for v in vals])} {clist([cq(p) for p in head])}",
                 ("cat", x, vals, probs))
     if len(polys) == 1 and polys[0].get("op") in ("mul", "add") and all(polys[0]["args_sym"]) \
@@ -171,8 +179,9 @@ def conv_cond(atoms, idx):
 
 
 def conv_program(g, m):
-    """-> (Coq gprog term, python program for the interpreter)"""
+    """-> (Coq gprog term, python program for the interpreter); g["float_last"] lists float residues"""
     idx = name_index(g, m)
+    flags = g.setdefault("float_last", [])
     prog = g["program"]
     if not prog["guard_true"] or prog["typedefs"]:
         raise Unrepresentable("loop guard / typedefs")
@@ -196,7 +205,7 @@ def conv_program(g, m):
                 if len(br) != 1:
                     raise Unrepresentable("branch with several statements")
                 c = conv_cond(atoms, idx)
-                t, p = conv_assign(br[0], idx)
+                t, p = conv_assign(br[0], idx, flags)
                 brs.append(f"({clist([f'({x}, {v})' for x, v in c])}, {t})")
                 pbrs.append((c, p))
             if s["else"] is None:
@@ -204,12 +213,12 @@ def conv_program(g, m):
             else:
                 if len(s["else"]) != 1:
                     raise Unrepresentable("else with several statements")
-                t, pels = conv_assign(s["else"][0], idx)
+                t, pels = conv_assign(s["else"][0], idx, flags)
                 els = f"(Some ({t}))"
             body.append(f"SIf {clist(brs)} {els}")
             pbody.append(("if", pbrs, pels))
         else:
-            t, p = conv_assign(s, idx)
+            t, p = conv_assign(s, idx, flags)
             body.append(f"SAssign ({t})")
             pbody.append(("assign", p))
     return f"{{| g_init := {clist(init)}; g_body := {clist(body)} |}}", (pinit, pbody)
@@ -298,17 +307,16 @@ def build_cases(ctx):
             cases.append({"kind": "malformed:" + kind, "ast": ast, "text": text, "info": info, "net": net,
                           "queries": [{"type": "none"}]})
     # names whose sanitised form is a keyword of Polar's language or a symengine constant
-    for i in range(ctx.pick(6, 30)):
-        res = rng.choice(bifgen.RESERVED_POOL)
-
-        def names(r, m, res=res):
-            ns = bifgen.draw_names(r, m - 1) if m > 1 else []
-            ns.insert(r.randrange(len(ns) + 1), res)
-            return ns if len(set(ns)) == len(ns) else [res] + [f"v{j}" for j in range(m - 1)]
-        ast, text, info, net = bifgen.valid_case(rng, max_vars=3, small=True, names=names)
-        info["reserved"] = res
-        cases.append({"kind": "reserved-name", "ast": ast, "text": text, "info": info, "net": net,
-                      "queries": [{"type": "none"}]})
+    for rep in range(ctx.pick(1, 3)):
+        for res in bifgen.RESERVED_POOL:
+            def names(r, m, res=res):
+                ns = bifgen.draw_names(r, m - 1) if m > 1 else []
+                ns.insert(r.randrange(len(ns) + 1), res)
+                return ns if len(set(ns)) == len(ns) else [res] + [f"v{j}" for j in range(m - 1)]
+            ast, text, info, net = bifgen.valid_case(rng, max_vars=3, small=True, names=names)
+            info["reserved"] = res
+            cases.append({"kind": "reserved-name", "ast": ast, "text": text, "info": info, "net": net,
+                          "queries": [{"type": "none"}]})
     for i, c in enumerate(cases):
         c["id"] = i
     return cases
@@ -424,9 +432,12 @@ def run(ctx):
                 defs.append(f"Definition p{i}_{j} : gprog := {t}.")
                 terms.append(f"gprog_eqb {model} (Some p{i}_{j})")
                 labels.append(f"program:{j}")
-                terms.append(f"valid_mapping {clist([cstr(a) for a, _ in g['mapping']])} "
-                             f"{clist([cstr(b) for _, b in g['mapping']])}")
+                nm = clist([cstr(a) for a, _ in g['mapping']])
+                mp = clist([cstr(b) for _, b in g['mapping']])
+                terms.append(f"valid_mapping {nm} {mp}")
                 labels.append(f"mapping:{j}")
+                terms.append(f"valid_mapping_from {clist([cstr(x) for x in RESERVED_FIX])} {nm} {mp}")
+                labels.append(f"mapping-reserved-aware:{j}")
         defs.append(f"Definition r{i} : list bool := {clist(terms)}.")
         coq_defs.append((i, "\n".join(defs)))
         layout.append((c, labels))
@@ -482,6 +493,14 @@ def run(ctx):
             if not real_acc and c["info"].get("well_formed_bif"):
                 ctx.coverage["refused_well_formed"] = ctx.coverage.get("refused_well_formed", 0) + 1
             continue
+        if kind == "malformed:prob_property" and model_acc and not real_acc and \
+                r["exc"]["etype"] == "AssertionError" and "__add_cpt__" in r.get("tb", ""):
+            newv = ctx.violation("accept:property-in-probability-block", replay_of(c, polar=r.get("exc"), tb=r.get("tb")),
+                                 "a property line inside a probability block (allowed by bif-syntax.lark) makes "
+                                 "__add_cpt__ fail with `assert False`: the well-formed file yields no network")
+            if not newv:
+                ctx.coverage["discharged"] += 1
+            continue
         if real_acc != model_acc:
             if kind == "valid" or kind == "reserved-name":
                 what = (f"a well-formed BIF file ({', '.join(c['info'].get('notations', []))}) is "
@@ -505,7 +524,8 @@ def run(ctx):
             continue
         # ---- network
         ctx.coverage["obligations"] += 1
-        tgt = target_network_matches(c["net"], r["network"]) if kind in ("valid", "reserved-name") else None
+        intended = kind in ("valid", "reserved-name", "malformed:prob_property")
+        tgt = target_network_matches(c["net"], r["network"]) if intended else None
         if "net_unrep" in c:
             ctx.violation(f"network:shape:{kind}", replay_of(c, why=c["net_unrep"], network=r["network"]),
                           f"accepted network outside the modelled shape: {c['net_unrep']}", no_input=tgt is None)
@@ -533,18 +553,27 @@ def run(ctx):
                 continue
             if "unrep" in g:
                 if kind == "reserved-name":
-                    ctx.violation("codegen:reserved-name",
-                                  replay_of(c, query=q, why=g["unrep"], code=g.get("code")),
-                                  f"variable named {c['info']['reserved']!r}: the generated program is not the "
-                                  f"network's program ({g['unrep'][:300]})")
+                    low = c["info"]["reserved"].lower()
+                    cls = ("keyword" if low in POLAR_KEYWORDS else
+                           "symengine-constant" if low in SYMENGINE_CONSTANTS else low)
+                    newv = ctx.violation(f"codegen:reserved-name:{cls}",
+                                         replay_of(c, query=q, why=g["unrep"], code=g.get("code")),
+                                         f"BIF variable named {c['info']['reserved']!r} becomes the Polar identifier "
+                                         f"{low!r}: the generated program is not the network's program "
+                                         f"({g['unrep'][:200]})")
+                    if not newv:
+                        ctx.coverage["discharged"] += 1
                 else:
                     ctx.violation(f"codegen:shape:{sig_q}:{kind}", replay_of(c, query=q, why=g["unrep"], code=g.get("code")),
                                   f"generated program outside the modelled shape: {g['unrep'][:300]}", no_input=True)
                 continue
             okp = v.get(f"program:{j}", False)
             okm = v.get(f"mapping:{j}", False)
+            if not okm and v.get(f"mapping-reserved-aware:{j}", False):
+                okm = True
+                ctx.coverage["mapping_reserved_aware"] = ctx.coverage.get("mapping_reserved_aware", 0) + 1
             sem_bad = None
-            if kind in ("valid", "reserved-name") and tgt is None:
+            if intended and tgt is None:
                 # independent semantic check: exact law of Polar's program vs the product formula
                 if oracle is None:
                     oracle = {a: p for a, p in bifgen.joint(c["net"]) if p != 0}
@@ -557,9 +586,21 @@ def run(ctx):
                     sem_bad = diff
             if sem_bad is not None:
                 a, pl, tr = sem_bad[0]
-                ctx.violation(f"codegen:law:{sig_q}", replay_of(c, query=q, code=g["code"], differences=sem_bad),
-                              f"one iteration of the generated loop gives assignment {a} probability {pl}, the "
-                              f"network's joint law gives {tr}")
+                tiny = all(abs(Fraction(x) - Fraction(y)) < Fraction(1, 10 ** 12) for _, x, y in sem_bad)
+                if g["float_last"] and tiny:
+                    fl = g["float_last"][0]
+                    newv = ctx.violation(
+                        "implicit-last:float-subtraction",
+                        replay_of(c, query=q, code=g["code"], differences=sem_bad, float_last=g["float_last"][:3]),
+                        f"the generated choice with probabilities {fl['choice'][:-1]} gets the implicit last probability "
+                        f"{fl['choice'][-1]} instead of {fl['implicit_last_should_be']} (float subtraction in Polar's "
+                        f"parser): assignment {a} has probability {pl}, the network's joint law gives {tr}")
+                    if not newv:
+                        ctx.coverage["discharged"] += 1
+                else:
+                    ctx.violation(f"codegen:law:{sig_q}", replay_of(c, query=q, code=g["code"], differences=sem_bad),
+                                  f"one iteration of the generated loop gives assignment {a} probability {pl}, the "
+                                  f"network's joint law gives {tr}")
             elif not okp:
                 ctx.violation(f"codegen:{sig_q}:{kind}", replay_of(c, query=q, code=g["code"]),
                               "the generated program differs from the model's (same joint law on this input)",
@@ -637,10 +678,12 @@ def end_to_end(ctx):
     for c in cases:
         i = c["id"]
         q = c["q"]
-        ev = clist([f"({v}, {x})" for v, x in q["evidence"]])
+        defs.append(f"Definition ev{i} : gcond := {clist([f'({v}, {x})' for v, x in q['evidence']])}.")
+        ev = f"ev{i}"
         defs.append(f"Definition b{i} : bif := {coq_bif(bifgen.effective_ast(c['ast']))}.")
         if q["type"] == "exact":
-            f_num = (f"(fun a => (ind (ev_holds {ev} a) * qpow (qnat (nth {q['target']} a 0)) {q['power']})%Qc)")
+            defs.append(f"Definition tg{i} : nat := {q['target']}.\nDefinition pw{i} : nat := {q['power']}.")
+            f_num = f"(fun a => (ind (ev_holds {ev} a) * qpow (qnat (nth tg{i} a O)) pw{i})%Qc)"
             num = cq(c["num"])
         else:
             f_num = "(fun a => 0%Qc)"
@@ -698,8 +741,11 @@ def end_to_end(ctx):
             # the defect of cli.common.transform_to_after_loop: E[count]_n printed instead of its limit.
             nsym = list(val.free_symbols)[0]
             qe = c["pe"]
-            good = all(sp.nsimplify(val.subs(nsym, k)) == sp.Rational(1) * sum((1 - qe) ** i for i in range(k + 1))
-                       .numerator / sum((1 - qe) ** i for i in range(k + 1)).denominator for k in range(1, 6))
+
+            def closed(k):
+                x = sum(((1 - qe) ** i for i in range(k + 1)), Fraction(0))
+                return sp.Rational(x.numerator, x.denominator)
+            good = all(sp.simplify(val.subs(nsym, k) - closed(k)) == 0 for k in range(1, 6))
             if good:
                 stats["sample_limit_missing"] += 1
                 new = ctx.violation(
